@@ -304,6 +304,14 @@ def direct(case, res):
         if res['ids'][k] != 'Sim. %d' % (s + 1) or 'Epsilon' not in res['names'][k]:
             return 'noise position %d is published as %r / %r, it belongs to simulated individual %d' % (
                 k, res['ids'][k], res['names'][k], s + 1)
+    # the whole gradient against finite differences of the plain evaluation (the certified route takes the filter's
+    # own sensitivities as given — those are C12's subject; this catches them here as well)
+    if math.isfinite(a):
+        from harness import c03
+        post, prior, S, fixed = build(case)
+        v = np.array(vector(case), dtype=float)
+        arg = v if fixed is None else np.delete(v, fixed)
+        return c03.fd_check(post, arg, res['grad'], 'filter log-posterior')
     return None
 
 
